@@ -70,42 +70,53 @@ pub fn truth_of(m: &GenModel) -> Verdict {
     v
 }
 
-/// Rows (name, coefficients by `GenModel` variable order) of the linear model a solver
-/// entry point is given: the model itself for the direct entry points, the output of the
-/// builder's own `linearize()` for the builder entry points.
-fn reference_rows(m: &GenModel, builder: bool) -> Option<Vec<(String, Vec<f64>)>> {
+/// The linear model a solver entry point is given: the model itself for the direct entry
+/// points, the output of the builder's own `linearize()` for the builder entry points.
+fn reference_model(m: &GenModel, builder: bool) -> Option<judge::RefModel> {
+    use crate::model::Cmp;
     if !builder {
-        return Some(
-            m.rows
+        return Some(judge::RefModel {
+            names: m.vars.iter().map(|v| v.name.clone()).collect(),
+            rows: m
+                .rows
                 .iter()
-                .map(|r| (r.name.clone(), r.coefs.clone()))
+                .map(|r| (r.name.clone(), r.coefs.clone(), r.cmp, r.rhs))
                 .collect(),
-        );
+            aux: Vec::new(),
+        });
     }
     let (b, _) = solvers::to_builder(m);
     let lm = std::panic::catch_unwind(std::panic::AssertUnwindSafe(|| b.linearize()))
         .ok()?
         .ok()?;
     let names = lm.variables().clone();
-    Some(
-        lm.constraints()
-            .iter()
-            .map(|c| {
-                let coefs = m
-                    .vars
-                    .iter()
-                    .map(|v| {
-                        names
-                            .iter()
-                            .position(|n| n == &v.name)
-                            .map(|j| c.coefficients()[j])
-                            .unwrap_or(0.0)
-                    })
-                    .collect();
-                (c.name(), coefs)
-            })
-            .collect(),
-    )
+    let mut aux = Vec::new();
+    for n in &names {
+        if m.vars.iter().any(|v| &v.name == n) {
+            continue;
+        }
+        let (lo, hi, integer) = match lm.domain().get(n).map(|d| d.get_type().clone()) {
+            Some(rooc::VariableType::Boolean) => (0.0, 1.0, true),
+            Some(rooc::VariableType::IntegerRange(lo, hi)) => (lo as f64, hi as f64, true),
+            Some(rooc::VariableType::Real(lo, hi))
+            | Some(rooc::VariableType::NonNegativeReal(lo, hi)) => (lo, hi, false),
+            None => (f64::NEG_INFINITY, f64::INFINITY, false),
+        };
+        aux.push((n.clone(), lo, hi, integer));
+    }
+    let rows = lm
+        .constraints()
+        .iter()
+        .map(|c| {
+            let cmp = match c.constraint_type() {
+                rooc::Comparison::LessOrEqual | rooc::Comparison::Less => Cmp::Le,
+                rooc::Comparison::GreaterOrEqual | rooc::Comparison::Greater => Cmp::Ge,
+                rooc::Comparison::Equal => Cmp::Eq,
+            };
+            (c.name(), c.coefficients().clone(), cmp, c.rhs())
+        })
+        .collect();
+    Some(judge::RefModel { names, rows, aux })
 }
 
 pub struct SolverCaseRun {
@@ -136,18 +147,18 @@ pub fn run_solver_case(case: &SolverCase) -> SolverCaseRun {
             });
         }
     };
-    let direct_rows = reference_rows(m, false).unwrap();
-    let mut builder_rows: Option<Option<Vec<(String, Vec<f64>)>>> = None;
+    let direct_ref = reference_model(m, false).unwrap();
+    let mut builder_ref: Option<Option<judge::RefModel>> = None;
     for (i, (cfg, res)) in case.runs.iter().zip(&results).enumerate() {
         match case.prop.as_str() {
             "C04" => {
                 let rows = if cfg.entry.is_builder() {
-                    builder_rows
-                        .get_or_insert_with(|| reference_rows(m, true))
+                    builder_ref
+                        .get_or_insert_with(|| reference_model(m, true))
                         .clone()
                         .unwrap_or_default()
                 } else {
-                    direct_rows.clone()
+                    direct_ref.clone()
                 };
                 push(i, cfg, judge::judge_c04(m, &rows, res));
             }
@@ -222,7 +233,8 @@ pub fn run_solver_case(case: &SolverCase) -> SolverCaseRun {
                     let differ = ta != tb
                         || match (va, vb) {
                             (Some(x), Some(y)) => {
-                                (x - y).abs() > 2.0 * judge::TOL * x.abs().max(y.abs()).max(1.0)
+                                (x - y).abs()
+                                    > 2.0 * judge::TOL * x.abs().max(y.abs()).max(case.model.value_scale())
                             }
                             _ => false,
                         };
